@@ -325,6 +325,15 @@ def run(prog, rep, tier):
                 if not (src <= {"arg2"}):
                     ok = False
                     why.append("dt() is taken from %s" % sorted(src))
+        # the returned text is this call's own rendering, nothing remembered from an earlier message
+        ro_ = b.origins(["cp", [0]], through_calls=("::to_string", "ToString>::to_string", "::into", "::clone"))
+        fresh = ("String::with_capacity", "String::new")
+        foreign = [x for x in ro_ if not (x[0] == "call" and (x[2].split("::")[-1].startswith("format") or x[2].endswith("::to_string") or x[2].endswith("fmt::format") or any(x[2].endswith(f_) for f_ in fresh)))]
+        stored = [c for c in b.live_calls() if False]
+        writes_self = any(st[0] == "=" and st[1][0] == 1 and len(st[1]) > 1 for bb_ in b.live for st in b.stmts(bb_))
+        if foreign or len(ro_) != 1:
+            ok = False
+            why.append("the returned string can come from %s, not only from formatting this message's instant" % sorted(set("%s:%s" % (x[0], x[2] if x[0] == "call" else (x[2] if len(x) > 2 else "")) for x in (foreign or ro_)))[:3])
         rep.examined(R132, p, sample={"fn": p.split("::")[-1], "ok": ok, "why": why})
         if not ok:
             rep.violation(R132, p, "%s: %s" % (p.split("::")[-1], "; ".join(why)))
@@ -431,6 +440,41 @@ def run(prog, rep, tier):
         if not ok:
             rep.violation(R134, inst, "processing_loop: the alignment width (line %d) is computed over %s, not over the sources that have a pending message; a silent or filtered-out file with a long name would widen every line" % (
                 w.line, [t.split("<")[0] for t in tys]))
+
+    # R13.4b: the alignment width is measured in display columns; padding must use the same measure
+    #         (the formatter's own padding), never width minus a byte length
+    lens = set()
+    for c in b.live_calls():
+        if c.d.endswith("str::<impl str>::len") or c.d.endswith("String::len"):
+            lens.add(c.dest[0])
+    wv = set()
+    for w in widths:
+        wv.add(w.dest[0])
+    from c05 import forward_taint as _ft
+    lt = _ft(b, lens)
+    wt = _ft(b, wv)
+    # width flows through max() calls
+    changed = True
+    while changed:
+        n0 = len(wt)
+        for c in b.live_calls():
+            if c.dest[0] not in wt and c.d.split("::")[-1] in ("max", "min", "saturating_sub", "checked_sub", "wrapping_sub") and any(a[0] in ("cp", "mv") and a[1][0] in wt for a in c.args):
+                wt.add(c.dest[0])
+        wt = _ft(b, wt)
+        changed = len(wt) != n0
+    mixed = []
+    for bb in sorted(b.live):
+        for st in b.stmts(bb):
+            if st[0] == "=" and st[2][0] == "bin" and st[2][1].startswith("Sub"):
+                ops = (st[2][2], st[2][3])
+                if any(o[0] in ("cp", "mv") and o[1][0] in wt for o in ops) and any(o[0] in ("cp", "mv") and o[1][0] in lt for o in ops):
+                    mixed.append(b.blocks[bb].get("l"))
+    for c in b.live_calls():
+        if c.d.split("::")[-1] in ("saturating_sub", "checked_sub", "wrapping_sub") and any(a[0] in ("cp", "mv") and a[1][0] in wt for a in c.args) and any(a[0] in ("cp", "mv") and a[1][0] in lt for a in c.args):
+            mixed.append(c.line)
+    rep.examined(R134, PL + "|padding-measure", sample={"byte_length_results": len(lens), "width_minus_byte_length_sites": mixed})
+    if mixed:
+        rep.violation(R134, PL + "|padding-measure", "processing_loop: padding is computed as display width minus a byte length (line %s); names with multi-byte characters are under-padded, so aligned prefixes differ in width" % mixed[0])
 
     # ------------------------------------------------------------ R13.6
     R136 = rep.rule("R13.6", "evtx/journal message buffers end with a newline (decorated variants print whole newline-terminated pieces only)")
